@@ -832,6 +832,7 @@ namespace sim
 
 			void abort_send_handlers();
 			void abort_recv_handlers();
+			void abort_connect();
 
 			virtual bool internal_is_listening();
 		protected:
